@@ -310,11 +310,13 @@ void reschedule(Thr* me)
     Thr* n = W->thr[tid];
     if (kind == 1)
     {
+      // detail 1 = FORCED: no thread was enabled, the time-out is the only way on. obj = the condition variable (mutex for a timed lock).
+      void* waited = n->obj;
       n->timedOut = true;
       if (n->deadline > W->vtime) W->vtime = n->deadline;
       if (n->pend == P_SLEEPING) { n->pend = P_REACQ; n->obj = n->mtx; }
       else { n->pend = P_NONE; }   // timed lock gives up
-      ev(tid, TIMEOUT, nullptr, 0);
+      ev(tid, TIMEOUT, waited, R.empty() ? 1 : 0);
       continue;
     }
     if (kind == 2)
